@@ -320,6 +320,14 @@ def gen_case(rng, tier):
 
 # ----------------------------------------------------------------------------------------------- building
 def build(desc, target):
+    if desc.get("real_interactions"):
+        # corpus only: the operand is built while the global switch dimod.REAL_INTERACTIONS is on
+        d2 = dict(desc); d2.pop("real_interactions")
+        dimod.REAL_INTERACTIONS = True
+        try:
+            return build(d2, target)
+        finally:
+            dimod.REAL_INTERACTIONS = False
     if target == "qm":
         qm = QuadraticModel()
         for l, vt, lb, ub in desc["vars"]:
